@@ -84,6 +84,35 @@ class Walker(Monitor):
     def on_walker_built(self, walker, args, kwargs, info):
         self.walkers[id(walker)] = (walker, list(info))
 
+    @staticmethod
+    def _walkers_of(handler):
+        for name, value in vars(handler).items():
+            group = value if isinstance(value, (list, tuple)) else [value]
+            for position, walker in enumerate(group):
+                if type(walker).__name__ == "Walker":
+                    yield (name, position), walker
+
+    def on_handlers_restoring(self, handlers):
+        self.layout = {(id(handler), where): id(walker) for handler in handlers
+                       for where, walker in self._walkers_of(handler)}
+
+    def on_handlers_restored(self, handlers):
+        """The walkers inside the event handlers have been replaced by their dill round trips (the cells they point
+        to are the same objects): each takes the place of the walker that was at the same position of the same
+        attribute, and is explored like the originals."""
+        explored = set()
+        for handler in handlers:
+            for where, walker in self._walkers_of(handler):
+                old = self.walkers.get(self.layout.get((id(handler), where)))
+                if old is None or id(walker) in self.walkers:
+                    continue
+                items = old[1]
+                self.walkers[id(walker)] = (walker, items)
+                key = tuple(round(rate, 12) for _, rate in items)
+                if key not in explored and len(explored) < 2:
+                    explored.add(key)
+                    self._explore(walker, items, "restored_inside_its_event_handler")
+
     def on_mediator(self, *args):
         ctx = self.ctx
         explored = 0
@@ -221,6 +250,9 @@ class Walker(Monitor):
                 return
             ctx.probes["c18_sample_recognised_by_its_draws"] += 1
         walker, offset = self.sampled
+        if id(walker) not in self.walkers:
+            ctx.probes["c18_proposal_of_an_unregistered_walker"] += 1
+            return
         tagger = ctx.handler_tagger.get(handler)
         state = getattr(tagger, "internal_state", None)
         branch = args[0][0]
